@@ -2,6 +2,7 @@ package main
 
 import (
 	"fmt"
+	"os"
 	"strings"
 	"sync"
 
@@ -19,6 +20,7 @@ import (
 //
 //	pm-new <K>
 //	pm-add <addr> <force> <n> {<height> <hash> <prev> <type> <total> <base>}*n | <result> <obs>      commits in order, head last
+//	                                                                            (pm-addR: the same, replayed on the repaired rule)
 //	pm-insert <n> {<addr> <height> <hash> <prev> <type>}*n                     | <obs>               momentum confirming n blocks
 //	pm-delete <K> {<keep>}*K                                                   | <obs>               momentum rollback
 //	pm-offer <limit> <order a.b.c>                                             | <addr>:<hash>,...   filterBlocksToCommit of the pools in that address order
@@ -58,6 +60,10 @@ type pmSeq struct {
 	momentums [][]int // per inserted momentum: blocks confirmed per address
 	limit     int
 }
+
+// pmAddOp: "pm-add" is replayed on the model of the code as it is, "pm-addR" on the model of the repaired competitor rule
+// (candidate fix of FDF1); VERIF_POOL_REPAIRED=1 selects the latter
+var pmAddOp = map[bool]string{false: "pm-add", true: "pm-addR"}[os.Getenv("VERIF_POOL_REPAIRED") != ""]
 
 func ownPrev(b *nom.AccountBlock) types.HashHeight {
 	return types.HashHeight{Hash: b.PreviousHash, Height: b.Height - 1}
@@ -306,7 +312,7 @@ func (s *pmSeq) add(t *pmTx, force bool, fresh bool, rival *pmTx, kind string) {
 	for _, b := range t.commits {
 		args = append(args, fmt.Sprint(b.Height), s8(b.Hash), s8(b.PreviousHash), fmt.Sprint(b.BlockType), fmt.Sprint(b.TotalPlasma), fmt.Sprint(b.BasePlasma))
 	}
-	s.c.Emit("pm-add %d %d %d %s | %s %s", t.ai, f, len(t.commits), strings.Join(args, " "), res, obs)
+	s.c.Emit("%s %d %d %d %s | %s %s", pmAddOp, t.ai, f, len(t.commits), strings.Join(args, " "), res, obs)
 	s.c.Hit("add-" + kind + "-" + res)
 	if len(t.commits) > 1 {
 		s.c.Hit("add-multi-" + res)
